@@ -1,9 +1,13 @@
-"""K-OWN: ownership of objects mutated in place on the key path (may-alias tags, flow-insensitive per function,
-interprocedural through return summaries).
+"""K-OWN / K-MEMO: ownership of objects mutated in place on the key path, and sufficiency of memo keys.
 
-An object that is an *element* of module-level mutable state (a memo table, a registry) must not be mutated in place by
-the key computation: the mutation would survive the call and change the keys of later calls.  Writing to the module-level
-container itself (filling a memo) is allowed; handing out its elements and then `.update()`-ing them is not."""
+Flow-sensitive may-alias tags per function (branches joined by union, loops run twice), interprocedural through
+position-sensitive return summaries; nested functions have their own scope (free variables read the enclosing one).
+
+K-OWN   an object that is an *element* of module-level mutable state (a memo table, a registry) must not be mutated in place
+        by the key computation: the mutation would survive the call and change the keys of later calls.  Writing to the
+        module-level container itself (filling a memo) is allowed.
+K-MEMO  a value memoised in module-level state must be stored under a key that contains, whole, every parameter the value was
+        computed from (memoising signature(func) under func.__code__ serves one function's defaults to its siblings)."""
 import ast
 
 from .src import AnalysisError, unparse
@@ -11,8 +15,8 @@ from .src import AnalysisError, unparse
 MUTATORS = ('update', 'append', 'extend', 'pop', 'popitem', '__delitem__', '__setitem__', 'clear', 'insert', 'remove',
             'add', 'discard', 'setdefault', 'sort', 'reverse')
 COPIERS = set(['dict', 'list', 'tuple', 'set', 'frozenset', 'sorted', 'copy', 'deepcopy', 'str', 'repr', 'int', 'float', 'bool', 'len',
-               'zip', 'enumerate', 'map', 'filter', 'isinstance', 'hasattr', 'getattr', 'type', 'bytes', 'sum', 'min', 'max', 'any', 'all',
-               'OrderedDict', 'Counter', 'defaultdict', 'range'])
+               'zip', 'enumerate', 'map', 'filter', 'isinstance', 'hasattr', 'type', 'bytes', 'sum', 'min', 'max', 'any', 'all',
+               'OrderedDict', 'Counter', 'defaultdict', 'range', 'id', 'hash'])
 ELEMENT_GETTERS = ('get', 'pop', 'setdefault', '__getitem__', 'values', 'items', 'popitem', 'keys')
 CONTAINER_CTORS = ('dict', 'list', 'set', 'OrderedDict', 'defaultdict', 'deque', 'WeakKeyDictionary', 'WeakValueDictionary', 'Counter', 'ChainMap')
 
@@ -21,6 +25,8 @@ def shared_containers(module):
     """module-level names bound to a mutable container"""
     out = {}
     for name, node in module.consts.items():
+        if name in ('__all__', '__slots__', '__path__', '__version__', '__author__'):
+            continue
         if isinstance(node, (ast.Dict, ast.List, ast.Set, ast.DictComp, ast.ListComp, ast.SetComp)):
             out[name] = node
         elif isinstance(node, ast.Call):
@@ -31,8 +37,18 @@ def shared_containers(module):
     return out
 
 
+def none_test(test):
+    """`X is None` -> (X, True) ; `X is not None` -> (X, False) ; else None"""
+    if isinstance(test, ast.Compare) and len(test.ops) == 1 and isinstance(test.left, ast.Name) \
+            and isinstance(test.comparators[0], ast.Constant) and test.comparators[0].value is None:
+        if isinstance(test.ops[0], ast.Is):
+            return test.left.id, True
+        if isinstance(test.ops[0], ast.IsNot):
+            return test.left.id, False
+    return None
+
+
 def merge_pos(lists):
-    """position-wise union of tag lists of possibly different lengths (position i = union over the lists that have it)"""
     n = max(len(p) for p in lists)
     out = [set() for _ in range(n)]
     for p in lists:
@@ -41,44 +57,134 @@ def merge_pos(lists):
     return out
 
 
+class Env(object):
+    def __init__(self, parent=None):
+        self.tags = {}
+        self.pos = {}       # name -> per-position tags or None (unknown structure)
+        self.defs = {}      # name -> defining expression (strong update) for K-MEMO expansion; None = several
+        self.parent = parent
+
+    def copy(self):
+        e = Env(self.parent)
+        e.tags = dict((k, set(v)) for k, v in self.tags.items())
+        e.pos = dict((k, (None if v is None else [set(x) for x in v])) for k, v in self.pos.items())
+        e.defs = dict(self.defs)
+        return e
+
+    def join(self, other):
+        for k, v in other.tags.items():
+            self.tags.setdefault(k, set()).update(v)
+        for k in set(self.pos) | set(other.pos):
+            a, b = self.pos.get(k, 'absent'), other.pos.get(k, 'absent')
+            if a == 'absent':
+                self.pos[k] = b if b != 'absent' else None
+            elif b == 'absent':
+                pass
+            elif a is None or b is None:
+                self.pos[k] = None
+            else:
+                self.pos[k] = merge_pos([a, b])
+        for k, v in other.defs.items():
+            if k in self.defs and self.defs[k] is not v:
+                self.defs[k] = None
+            else:
+                self.defs.setdefault(k, v)
+
+    def lookup(self, name):
+        e = self
+        while e is not None:
+            if name in e.tags:
+                return e.tags[name]
+            e = e.parent
+        return None
+
+    def lookup_pos(self, name):
+        e = self
+        while e is not None:
+            if name in e.pos or name in e.tags:
+                return e.pos.get(name)
+            e = e.parent
+        return None
+
+    def lookup_def(self, name):
+        e = self
+        while e is not None:
+            if name in e.defs:
+                return e.defs[name]
+            if name in e.tags:
+                return None
+            e = e.parent
+        return None
+
+
 class FnTags(object):
-    def __init__(self, module, fnode, shared, summaries, summaries_pos=None):
+    def __init__(self, module, fnode, shared, summaries, summaries_pos, parent_env=None, qual=''):
         self.module = module
         self.fn = fnode
+        self.qual = qual or getattr(fnode, 'name', '<lambda>')
         self.shared = shared
         self.summ = summaries
-        self.env = {}
-        self.env_pos = {}
-        self.poison = set()
-        self.summ_pos = summaries_pos if summaries_pos is not None else {}
-        self.ret_pos_seen = []
+        self.summ_pos = summaries_pos
         self.ret = set()
-        self.sites = []      # (node, receiver source, tags)
-        # iterate assignments to a local fixpoint (flow-insensitive)
-        for _ in range(4):
-            before = dict((k, set(v)) for k, v in self.env.items())
-            self.ret_pos_seen = []
-            self.visit_body(fnode)
-            if before == self.env:
-                break
-        self.collect_sites(fnode)
+        self.ret_pos_seen = []
+        self.sites = []          # (node, receiver source, tags)
+        self.memo_stores = []    # (node, container name, key expr, value expr, env snapshot)
+        self.unpack_sources = {}  # name -> call expr it was tuple-unpacked from
+        self.handler_memos = []   # (node, container, key expr, names used by the guarded body, env)
+        self.nested = []
+        self.params = set()
+        a = fnode.args
+        for x in list(getattr(a, 'posonlyargs', [])) + list(a.args) + list(a.kwonlyargs):
+            self.params.add(x.arg)
+        if a.vararg:
+            self.params.add(a.vararg.arg)
+        if a.kwarg:
+            self.params.add(a.kwarg.arg)
+        env = Env(parent_env)
+        for p in self.params:
+            env.tags[p] = set(['param:' + p])
+        if a.vararg:
+            env.tags[a.vararg.arg] = set(['pcont:' + a.vararg.arg])      # the tuple/dict is fresh, its elements are the caller's
+        if a.kwarg:
+            env.tags[a.kwarg.arg] = set(['pcont:' + a.kwarg.arg])
+        self.order = [x.arg for x in list(getattr(a, 'posonlyargs', [])) + list(a.args)]
+        self.calls = []          # (node, callee name, [arg tags])
+        self.final_env = self.block(fnode.body, env)
 
-    def ret_pos(self):
-        """per-position return tags when every return is a tuple of one length (or a call to such a function)"""
-        seen = self.ret_pos_seen
-        if not seen or any(p is None for p in seen):
-            return None
-        return merge_pos(seen)
-
+    # ------------------------------------------------------------- expressions
     def elem(self, tags):
-        return set('sharedelem:' + t.split(':', 1)[1] if t.startswith('shared:') else t for t in tags)
+        out = set()
+        for t in tags:
+            if t.startswith('shared:'):
+                out.add('sharedelem:' + t.split(':', 1)[1])
+            elif t.startswith('pcont:'):
+                out.add('param:' + t.split(':', 1)[1])
+            elif t.startswith('in:'):
+                out.add(t[3:])
+            else:
+                out.add(t)
+        return out
 
-    def tags(self, n):
+    def iter_tags(self, it, env):
+        """tags of the elements produced by iterating an expression"""
+        if isinstance(it, ast.Call):
+            f = it.func
+            if isinstance(f, ast.Name) and f.id in ('enumerate', 'zip', 'reversed', 'sorted', 'list', 'tuple', 'iter', 'set', 'frozenset'):
+                out = set()
+                for a in it.args:
+                    out |= self.iter_tags(a.value if isinstance(a, ast.Starred) else a, env)
+                return out
+            if isinstance(f, ast.Attribute) and f.attr in ('items', 'values', 'keys'):
+                return self.elem(self.tags(f.value, env))
+        return self.elem(self.tags(it, env))
+
+    def tags(self, n, env):
         if n is None:
             return set()
         if isinstance(n, ast.Name):
-            if n.id in self.env:
-                return set(self.env[n.id])
+            t = env.lookup(n.id)
+            if t is not None:
+                return set(t)
             if n.id in self.shared:
                 return set(['shared:' + n.id])
             return set()
@@ -94,125 +200,230 @@ class FnTags(object):
                 if f.attr in ('copy', '__copy__', '__deepcopy__'):
                     return set()
                 if f.attr in ELEMENT_GETTERS:
-                    return self.elem(self.tags(f.value))
+                    return self.elem(self.tags(f.value, env))
                 return set()
             return set()
         if isinstance(n, ast.Subscript):
-            return self.elem(self.tags(n.value))
+            return self.elem(self.tags(n.value, env))
         if isinstance(n, (ast.Tuple, ast.List)):
             out = set()
             for e in n.elts:
-                out |= self.tags(e)
-            return out
+                out |= self.tags(e, env)
+            return set('in:' + t for t in out)      # a fresh container whose elements alias
         if isinstance(n, ast.IfExp):
-            return self.tags(n.body) | self.tags(n.orelse)
+            nn = none_test(n.test)
+            if nn is not None:
+                name, is_none_in_body = nn
+                e2 = env.copy()
+                e2.tags[name] = set()       # in that branch the name is None: it aliases nothing
+                return (self.tags(n.body, e2) | self.tags(n.orelse, env)) if is_none_in_body else \
+                    (self.tags(n.body, env) | self.tags(n.orelse, e2))
+            return self.tags(n.body, env) | self.tags(n.orelse, env)
         if isinstance(n, ast.BoolOp):
             out = set()
             for v in n.values:
-                out |= self.tags(v)
+                out |= self.tags(v, env)
             return out
-        if isinstance(n, ast.Starred):
-            return self.tags(n.value)
-        if isinstance(n, ast.NamedExpr):
-            return self.tags(n.value)
+        if isinstance(n, (ast.Starred, ast.NamedExpr)):
+            return self.tags(n.value, env)
         return set()
 
-    def positional(self, value):
-        """per-position tags of a tuple-valued expression, or None"""
+    def positional(self, value, env):
         if isinstance(value, (ast.Tuple, ast.List)) and not any(isinstance(e, ast.Starred) for e in value.elts):
-            return [self.tags(e) for e in value.elts]
-        if isinstance(value, ast.Call) and isinstance(value.func, ast.Name) and value.func.id in self.summ_pos \
-                and self.summ_pos[value.func.id] is not None:
+            return [self.tags(e, env) for e in value.elts]
+        if isinstance(value, ast.Call) and isinstance(value.func, ast.Name) and self.summ_pos.get(value.func.id) is not None:
             return [set(x) for x in self.summ_pos[value.func.id]]
-        if isinstance(value, ast.Name) and value.id in self.env_pos and value.id not in self.poison:
-            return [set(x) for x in self.env_pos[value.id]]
+        if isinstance(value, ast.Name):
+            p = env.lookup_pos(value.id)
+            if p is not None:
+                return [set(x) for x in p]
+            return None
         if isinstance(value, ast.IfExp):
-            a, b = self.positional(value.body), self.positional(value.orelse)
+            a, b = self.positional(value.body, env), self.positional(value.orelse, env)
             if a is not None and b is not None:
                 return merge_pos([a, b])
         return None
 
-    def assign(self, target, value):
+    # ------------------------------------------------------------- statements
+    def assign(self, target, value, env, weak=False):
         if isinstance(target, (ast.Tuple, ast.List)) and not any(isinstance(e, ast.Starred) for e in target.elts):
-            pos = self.positional(value)
+            for t in target.elts:
+                if isinstance(t, ast.Name):
+                    self.unpack_sources[t.id] = value
+            pos = self.positional(value, env)
             if pos is not None and len(pos) >= len(target.elts):
                 for t, tg in zip(target.elts, pos):
-                    self.bind(t, tg)
+                    self.bind(t, tg, env, None, weak)
                 return
+            tg = self.elem(self.tags(value, env))
+            for t in target.elts:
+                self.bind(t, tg, env, None, weak)
+            return
+        pos = self.positional(value, env)
+        self.bind(target, self.tags(value, env), env, value, weak)
         if isinstance(target, ast.Name):
-            pos = self.positional(value)
-            if pos is None and not (isinstance(value, ast.Constant) and value.value is None):
-                self.poison.add(target.id)      # also bound to something whose structure is unknown
-            if pos is not None:
-                old = self.env_pos.get(target.id)
-                if old is None or len(old) != len(pos):
-                    self.env_pos[target.id] = [set(x) for x in pos]
-                else:
-                    for a, b in zip(old, pos):
-                        a |= b
-        self.bind(target, self.tags(value))
+            env.pos[target.id] = pos if not weak else None
 
-    def bind(self, target, tags):
+    def bind(self, target, tags, env, value=None, weak=False):
         if isinstance(target, ast.Name):
-            self.env.setdefault(target.id, set()).update(tags)
+            if weak:
+                env.tags.setdefault(target.id, set()).update(tags)
+                env.defs[target.id] = None
+            else:
+                env.tags[target.id] = set(tags)
+                env.defs[target.id] = value
+            env.pos[target.id] = None
         elif isinstance(target, (ast.Tuple, ast.List)):
             for e in target.elts:
-                self.bind(e, tags)
+                self.bind(e, tags, env, None, weak)
         elif isinstance(target, ast.Starred):
-            self.bind(target.value, tags)
+            self.bind(target.value, tags, env, None, weak)
 
-    def visit_body(self, fn):
-        for n in ast.walk(fn):
-            if isinstance(n, (ast.FunctionDef, ast.Lambda)) and n is not fn:
+    def scan_expr(self, node, env):
+        """mutation sites and memo stores inside an expression (not descending into nested functions)"""
+        stack = [node]
+        while stack:
+            n = stack.pop()
+            if isinstance(n, (ast.FunctionDef, ast.Lambda)):
                 continue
-            if isinstance(n, ast.Assign):
-                for tg in n.targets:
-                    self.assign(tg, n.value)
-            elif isinstance(n, ast.AnnAssign) and n.value is not None:
-                self.bind(n.target, self.tags(n.value))
-            elif isinstance(n, ast.For):
-                self.bind(n.target, self.elem(self.tags(n.iter)))
-            elif isinstance(n, ast.With):
-                for it in n.items:
-                    if it.optional_vars is not None:
-                        self.bind(it.optional_vars, self.tags(it.context_expr))
-            elif isinstance(n, ast.Return) and n.value is not None:
-                self.ret |= self.tags(n.value)
-                self.ret_pos_seen.append(self.positional(n.value))
-            elif isinstance(n, ast.NamedExpr):
-                self.bind(n.target, self.tags(n.value))
-
-    def collect_sites(self, fn):
-        for n in ast.walk(fn):
-            recv = None
+            if isinstance(n, ast.Call) and isinstance(n.func, ast.Name):
+                self.calls.append((n, n.func.id, [self.tags(a.value if isinstance(a, ast.Starred) else a, env) for a in n.args]))
             if isinstance(n, ast.Call) and isinstance(n.func, ast.Attribute) and n.func.attr in MUTATORS:
                 recv = n.func.value
-            elif isinstance(n, (ast.Assign, ast.AugAssign, ast.Delete)):
-                tgts = n.targets if isinstance(n, (ast.Assign, ast.Delete)) else [n.target]
-                for t in tgts:
-                    if isinstance(t, ast.Subscript):
-                        self.sites.append((n, unparse(t.value), self.tags(t.value)))
-                    elif isinstance(n, ast.AugAssign) and isinstance(t, ast.Name) and isinstance(n.op, (ast.Add, ast.BitOr)):
-                        # x += [...] mutates lists/sets in place
-                        pass
-            if recv is not None:
-                self.sites.append((n, unparse(recv), self.tags(recv)))
+                self.sites.append((n, unparse(recv), self.tags(recv, env)))
+                if n.func.attr == 'setdefault' and isinstance(recv, ast.Name) and recv.id in self.shared and len(n.args) == 2 \
+                        and env.lookup(recv.id) is None:
+                    self.memo_stores.append((n, recv.id, n.args[0], n.args[1], env.copy()))
+            stack.extend(ast.iter_child_nodes(n))
+
+    def block(self, stmts, env):
+        for s in stmts:
+            env = self.stmt(s, env)
+        return env
+
+    def stmt(self, s, env):
+        if isinstance(s, ast.FunctionDef):
+            self.nested.append((s, env))
+            env.tags[s.name] = set()
+            return env
+        if isinstance(s, ast.Assign):
+            self.scan_expr(s.value, env)
+            for t in s.targets:
+                if isinstance(t, ast.Subscript):
+                    self.sites.append((s, unparse(t.value), self.tags(t.value, env)))
+                    if isinstance(t.value, ast.Name) and t.value.id in self.shared and env.lookup(t.value.id) is None:
+                        self.memo_stores.append((s, t.value.id, t.slice, s.value, env.copy()))
+                else:
+                    self.assign(t, s.value, env)
+            return env
+        if isinstance(s, ast.AnnAssign):
+            if s.value is not None:
+                self.scan_expr(s.value, env)
+                self.assign(s.target, s.value, env)
+            return env
+        if isinstance(s, ast.AugAssign):
+            self.scan_expr(s.value, env)
+            if isinstance(s.target, ast.Subscript):
+                self.sites.append((s, unparse(s.target.value), self.tags(s.target.value, env)))
+            elif isinstance(s.target, ast.Name):
+                env.tags.setdefault(s.target.id, set()).update(self.tags(s.value, env))
+                env.pos[s.target.id] = None
+                env.defs[s.target.id] = None
+            return env
+        if isinstance(s, ast.Delete):
+            for t in s.targets:
+                if isinstance(t, ast.Subscript):
+                    self.sites.append((s, unparse(t.value), self.tags(t.value, env)))
+            return env
+        if isinstance(s, ast.Return):
+            if s.value is not None:
+                self.scan_expr(s.value, env)
+                self.ret |= self.tags(s.value, env)
+                self.ret_pos_seen.append(self.positional(s.value, env))
+            return env
+        if isinstance(s, ast.Expr):
+            self.scan_expr(s.value, env)
+            return env
+        if isinstance(s, ast.If):
+            self.scan_expr(s.test, env)
+            ea, eb = env.copy(), env.copy()
+            nn = none_test(s.test)
+            if nn is not None:
+                (ea if nn[1] else eb).tags[nn[0]] = set()
+            a = self.block(s.body, ea)
+            b = self.block(s.orelse, eb)
+            a.join(b)
+            return a
+        if isinstance(s, (ast.For, ast.While)):
+            if isinstance(s, ast.For):
+                self.scan_expr(s.iter, env)
+                self.bind(s.target, self.iter_tags(s.iter, env), env, None, weak=True)
+            else:
+                self.scan_expr(s.test, env)
+            e1 = self.block(s.body, env.copy())
+            e1.join(env)
+            e2 = self.block(s.body, e1.copy())
+            e2.join(e1)
+            e3 = self.block(s.orelse, e2.copy())
+            e3.join(e2)
+            return e3
+        if isinstance(s, ast.Try):
+            # a fact recorded in module-level state from inside a handler depends on everything the guarded body used
+            used = set()
+            for st_ in s.body:
+                for n_ in ast.walk(st_):
+                    if isinstance(n_, ast.Name) and isinstance(n_.ctx, ast.Load):
+                        used.add(n_.id)
+            for h in s.handlers:
+                for n_ in ast.walk(h):
+                    if isinstance(n_, ast.Call) and isinstance(n_.func, ast.Attribute) and n_.func.attr in ('add', 'append') \
+                            and isinstance(n_.func.value, ast.Name) and n_.func.value.id in self.shared and env.lookup(n_.func.value.id) is None and n_.args:
+                        self.handler_memos.append((n_, n_.func.value.id, n_.args[0], set(used), env.copy()))
+            b = self.block(s.body, env.copy())
+            out = self.block(s.orelse, b.copy())
+            for h in s.handlers:
+                start = env.copy()      # a handler may start from any point of the body: join of before and after
+                start.join(b)
+                if h.name:
+                    start.tags[h.name] = set()
+                out.join(self.block(h.body, start))
+            if s.finalbody:
+                out = self.block(s.finalbody, out)
+            return out
+        if isinstance(s, ast.With):
+            for it in s.items:
+                self.scan_expr(it.context_expr, env)
+                if it.optional_vars is not None:
+                    self.bind(it.optional_vars, self.tags(it.context_expr, env), env)
+            return self.block(s.body, env)
+        if isinstance(s, (ast.Import, ast.ImportFrom)):
+            for a in s.names:
+                env.tags[a.asname or a.name.split('.')[0]] = set()
+            return env
+        if isinstance(s, (ast.Raise, ast.Assert)):
+            for c in ast.iter_child_nodes(s):
+                self.scan_expr(c, env)
+            return env
+        return env
+
+    def ret_pos(self):
+        seen = self.ret_pos_seen
+        if not seen or any(p is None for p in seen):
+            return None
+        return merge_pos(seen)
 
 
 def analyse_module(module):
     shared = shared_containers(module)
-    fns = {}
-    for name, fi in module.functions.items():
-        fns[name] = fi.node
-    # nested functions of module-level functions are analysed as part of their parent (ast.walk covers them for sites)
+    fns = dict((name, fi.node) for name, fi in module.functions.items())
     summaries = dict((n, set()) for n in fns)
     summaries_pos = {}
-    results = {}
+    top = {}
     for _ in range(5):
         changed = False
         for name, node in fns.items():
-            ft = FnTags(module, node, shared, summaries, summaries_pos)
-            results[name] = ft
+            ft = FnTags(module, node, shared, summaries, summaries_pos, None, name)
+            top[name] = ft
             rp = ft.ret_pos()
             if ft.ret != summaries[name] or summaries_pos.get(name, 'unset') != rp:
                 summaries[name] = set(ft.ret)
@@ -220,8 +431,92 @@ def analyse_module(module):
                 changed = True
         if not changed:
             break
-    # methods of classes (keymaps)
+    results = {}
+
+    def add(ft):
+        results[ft.qual] = ft
+        for node, env in ft.nested:
+            add(FnTags(module, node, shared, summaries, summaries_pos, env, '%s.%s' % (ft.qual, node.name)))
+    for name, ft in top.items():
+        add(ft)
     for ci in module.classes.values():
         for mname, fi in ci.methods.items():
-            results['%s.%s' % (ci.label, mname)] = FnTags(module, fi.node, shared, summaries, summaries_pos)
+            add(FnTags(module, fi.node, shared, summaries, summaries_pos, None, '%s.%s' % (ci.label, mname)))
     return shared, results
+
+
+# ---------------------------------------------------------------------------------------------
+# K-MEMO helpers
+def expand(expr, env, depth=0):
+    """substitute single-definition locals by their defining expressions"""
+    if depth > 6 or expr is None:
+        return expr
+    if isinstance(expr, ast.Name):
+        d = env.lookup_def(expr.id)
+        if d is not None and d is not expr:
+            return expand(d, env, depth + 1)
+    return expr
+
+
+def whole_names(expr, env, depth=0):
+    """names that occur WHOLE in a key expression (the key itself or an element of a key tuple)"""
+    expr = expand(expr, env, depth)
+    out = set()
+    if isinstance(expr, ast.Name):
+        out.add(expr.id)
+    elif isinstance(expr, (ast.Tuple, ast.List)):
+        for e in expr.elts:
+            out |= whole_names(e, env, depth + 1)
+    return out
+
+
+def arg_names(expr, env, ft, depth=0):
+    """names passed whole as arguments to the call(s) that compute a memoised value"""
+    out = set()
+    if depth > 6 or expr is None:
+        return out
+    if isinstance(expr, ast.Name):
+        d = env.lookup_def(expr.id)
+        if d is None and expr.id in ft.unpack_sources:
+            d = ft.unpack_sources[expr.id]
+        if d is not None and d is not expr:
+            return arg_names(d, env, ft, depth + 1)
+        return out
+    if isinstance(expr, ast.Call):
+        for a in list(expr.args) + [k.value for k in expr.keywords]:
+            a2 = a.value if isinstance(a, ast.Starred) else a
+            if isinstance(a2, ast.Name):
+                out.add(a2.id)
+    elif isinstance(expr, (ast.Tuple, ast.List)):
+        for e in expr.elts:
+            out |= arg_names(e, env, ft, depth + 1)
+    return out
+
+
+def param_mutations(results):
+    """[(qualname, node, receiver source, param)] direct in-place mutations of caller-owned objects, plus calls that hand a
+    caller-owned object to a function that mutates that parameter"""
+    direct = {}
+    for q, ft in results.items():
+        for node, recv, tags in ft.sites:
+            for t in tags:
+                if t.startswith('param:'):
+                    direct.setdefault(q, []).append((node, recv, t.split(':', 1)[1]))
+    # which positional parameters does each function mutate (by simple name)
+    mutates = {}
+    for q, lst in direct.items():
+        ft = results[q]
+        short = q.split('.')[-1]
+        for node, recv, pname in lst:
+            if pname in ft.order:
+                mutates.setdefault(short, set()).add(ft.order.index(pname))
+    out = []
+    for q, lst in direct.items():
+        for node, recv, pname in lst:
+            out.append((q, node, recv, pname, None))
+    for q, ft in results.items():
+        for node, callee, argtags in ft.calls:
+            for i, tg in enumerate(argtags):
+                if i in mutates.get(callee, ()) and any(t.startswith('param:') for t in tg):
+                    out.append((q, node, unparse(node.args[i]), sorted(t for t in tg if t.startswith('param:'))[0].split(':', 1)[1], callee))
+    return out
